@@ -1,9 +1,10 @@
 (* Props/C02.v — theorems of property C02 (statements only; proofs in coq/Proofs/Merge*.v).
    Model: coq/Model/Merge.v (MFixed = dataframe.py after work/C02/fix-F-C02[a-e].diff, MOrig = as found),
-          composed with Model/Join.v (C03) and Model/MapStream.v (C04, version Fixed).
+          composed with Model/Join.v (C03) and Model/MapStream.v (C04, version Fixed = operations.py after the
+          C04 fixes and work/E7/fix-F-C02f.diff).
    Spec:  coq/Spec/MergeSpec.v (join_pairs, gather_col, merge_spec), Spec/JoinSpec.v, Spec/MapStreamSpec.v. *)
 From Coq Require Import ZArith List Lia Bool.
-From EV Require Import Res Arr Join JoinSpec JoinBase JoinIface JoinDriver JoinMain MapStream MapStreamSpec
+From EV Require Import Res Arr Join JoinSpec JoinBase JoinIface JoinDriver JoinMain MapStream MapStreamSpec MapStreamBase
   MapIndexedDriver Merge MergeSpec MergeBase MergeOrdered MergeMaps MergeTop MergeRows MergeRefuted
   JoinAll MergeAll MergeCopy MergeShape.
 Import ListNotations.
@@ -16,8 +17,9 @@ Open Scope Z_scope.
    used) unique-hint pair, all column lists, all sizes and chunk sizes (join chunk size cs, map-stream
    chunk size mcs >= 1, value factor vf >= 0, chunked_copy size ccs >= 1): if the generator the repaired
    table selects satisfies C03's end-to-end statement (it returns the relational join or raises the
-   clear long-run error), no key is repeated on both sides (nbd; else F-C02f), no run is as long as the
-   chunk (else F-C02g), the columns are well formed and the destination names are distinct, then
+   clear long-run error), no run is as long as the chunk (else F-C02g), the columns are well formed and the
+   destination names are distinct, then — ALSO when a key is repeated on both sides (many-to-many; the
+   hypothesis `nbd` that F-C02f forced is gone since fix-F-C02f: C04's theorems now hold for maps in any order) —
    _ordered_merge terminates without error and the destination is exactly ordered_dest: the join maps,
    every left column gathered through the left side of the relational join and every right column through
    its right side (empty value where the side is unmatched), clashing names suffixed on both sides. *)
@@ -34,7 +36,6 @@ Hypothesis C03_selected :
 Theorem ordered_merge_correct :
   how = 0 \/ how = 1 \/ how = 2 -> 1 <= mcs -> 0 <= vf -> 1 <= ccs ->
   sorted lk -> sorted rk ->
-  nbd (sel_a how lk rk) (sel_b how lk rk) ->
   ~ LongRun (v_kind (sel_variant how lu ru)) (v_left (sel_variant how lu ru)) (sel_a how lk rk) (sel_b how lk rk) cs ->
   frame_ok (len lk) lcols (mcs * vf) -> frame_ok (len rk) rcols (mcs * vf) ->
   NoDup (frame_names (ordered_dest how lu ru lk rk lcols rcols lsuf rsuf)) ->
@@ -232,7 +233,6 @@ Theorem streamed_rows_are_join_partial :
   let inv := merge_invalid lu ru (len lk) (len rk) in
   how = 0 \/ how = 1 \/ how = 2 ->
   v_writes_l (sel_variant how lu ru) = true ->
-  sorted lk -> sorted rk -> nbd (sel_a how lk rk) (sel_b how lk rk) ->
   len lk <= inv -> len rk <= inv ->
   idx_len_ok (len lk) lcols -> idx_len_ok (len rk) rcols ->
   ordered_dest how lu ru lk rk lcols rcols lsuf rsuf
@@ -421,7 +421,17 @@ Proof.
 Qed.
 Print Assumptions chunk_sizes_unobservable_both_unique.
 
-(* ---- the two join maps of sorted key columns meet C04's precondition: FULL ---------------------- *)
+(* ---- the two join maps meet C04's precondition: FULL -------------------------------------------------
+   since fix-F-C02f the precondition is "valid entries in range" and holds for ANY key columns; the
+   right-hand map is moreover non-decreasing (C04's old precondition) iff no key repeats on both sides *)
+Theorem join_left_map_in_range : forall emit inv L R, in_range_map (len L) inv (map fst (join_spec emit inv L R)).
+Proof. exact join_fst_in_range. Qed.
+Print Assumptions join_left_map_in_range.
+
+Theorem join_right_map_in_range : forall emit inv L R, in_range_map (len R) inv (map snd (join_spec emit inv L R)).
+Proof. exact join_snd_in_range. Qed.
+Print Assumptions join_right_map_in_range.
+
 Theorem join_left_map_valid : forall emit inv L R, valid_map (len L) inv (map fst (join_spec emit inv L R)).
 Proof. exact join_fst_valid. Qed.
 Print Assumptions join_left_map_valid.
@@ -493,12 +503,20 @@ Theorem streamed_path_left_name_refuted :       (* F-C02e *)
 Proof. exact orig_left_name_unsuffixed. Qed.
 Print Assumptions streamed_path_left_name_refuted.
 
-(* ---- the repaired tree: REFUTED, known findings (no small safe repair) --------------------------- *)
-Theorem repeated_key_both_sides_refuted :       (* F-C02f: nbd is a necessary hypothesis *)
-  (exists site, merge join_pairs f_args = OOB site) /\
-  map snd (join_spec true INVALID_INDEX_64 [0;0] [0;0]) = [0;1;0;1].
-Proof. exact nonmonotone_map_fails. Qed.
-Print Assumptions repeated_key_both_sides_refuted.
+(* ---- F-C02f, repaired by work/E7/fix-F-C02f.diff (operations.py): a key repeated on both sides gives the
+   non-monotone right map [0;1;0;1]; the merge is the relational join, for a numeric and an indexed-string
+   column on that side (the refutation of the code before the fix is Props/C04.v
+   map_stream_unordered_map_refuted / indexed_stream_unordered_map_refuted) ----------------------------- *)
+Theorem repeated_key_both_sides_fixed :         (* F-C02f *)
+  map snd (join_spec true INVALID_INDEX_64 [0;0] [0;0]) = [0;1;0;1] /\
+  data_cols (merge join_pairs f_args)
+  = Ok (merge_spec 0 [[0;0]] [[0;0]] (a_lcols f_args) (a_rcols f_args) sufL sufR) /\
+  data_cols (merge join_pairs f_args)
+  = Ok [(nV, numcol [10;10;20;20]); (nW, numcol [30;40;30;40]); (nK, CIdx [0;1;3;4;6] [97;98;98;97;98;98])].
+Proof. exact nonmonotone_map_ok. Qed.
+Print Assumptions repeated_key_both_sides_fixed.
+
+(* ---- the repaired tree: REFUTED, known finding (no small safe repair) ----------------------------- *)
 
 Theorem long_run_raises_refuted :               (* F-C02g: ~LongRun is a necessary hypothesis *)
   merge join_pairs g_args = Raise E_ValueError.
